@@ -38,6 +38,22 @@ def plan(ctx):
     return shards
 
 
+def offline(ctx, results):
+    n = 0
+    for r in results:
+        for rec in r["records"]:
+            if rec.get("t") == "summary":
+                n += rec["counters"].get("subset_words", 0)
+    full = len(ctx.producers) * (1 << 18)
+    extra = {"flag_subsets_enumerated": n, "flag_subsets_total": full}
+    if n == full:
+        extra["exhaustive"] = True
+        extra["exhaustive_scope"] = "all 2^18 subsets of the 18 CPython-defined flags on every interpreter (the header and unknown-bit workloads are sampled)"
+    else:
+        extra["exhaustive_scope"] = "subset sweep exhaustive on 3.9/3.10 only in this tier (every 8th subset on 3.7/3.8)"
+    return {"extra": extra}
+
+
 def replay_shard(v):
     case = v.get("case") or {}
     s = {"interp": v["interp"], "label": "replay", "tier": "quick", "seed": 0}
